@@ -35,6 +35,10 @@ static std::string get_readable_ip_address(std::string& wire_ip, bool ipv6)
         buflen = INET_ADDRSTRLEN + 4;
     }
 
+    // inet_ntop() reads 4 or 16 bytes, anything else can't be an IP address
+    if (wire_ip.size() != (ipv6 ? 16U : 4U))
+        return wire_ip;
+
     char addrBuf[buflen];
     auto ret = inet_ntop(ipv, wire_ip.data(), addrBuf, sizeof(addrBuf));
 
@@ -67,6 +71,10 @@ static std::string get_readable_dname(std::string& wire_dname)
             return wire_dname;
 
         labels++;
+        // Next label length byte has to lie inside the name (malformed or truncated domain name)
+        if (pos >= dname.size())
+            return wire_dname;
+
         label_len = dname[pos];
 
         // Replace all label length bytes with '.' character
